@@ -799,6 +799,12 @@ func (state *RuntimeState) getUsernameIfKeymasterSigned(VerifiedChains [][]*x509
 		if len(chain) < 2 {
 			continue
 		}
+		// The chain was verified when the connection was set up; the
+		// connection may have outlived the certificate.
+		now := time.Now()
+		if now.Before(chain[0].NotBefore) || now.After(chain[0].NotAfter) {
+			continue
+		}
 		username := chain[0].Subject.CommonName
 		//keymaster certs as signed directly
 		certSignerPKFingerprint, err := getKeyFingerprint(chain[1].PublicKey)
